@@ -85,10 +85,21 @@ New ==
                                   "C17", "well-formed FEN imported as a different position",
                                   [fen |-> Str(e.fen), as |-> FenLine(op)])
                                 \cup RawJudge(e.o, "C17")
+                                \cup F(pp = StartPos => e.o.h = StartHash, "C04",
+                                       "the standard start position does not hash to D9C54592621D7040", [got |-> e.o.h])
+                                \cup (IF "lg" \in DOMAIN e
+                                      THEN F(ToSet(e.lg) = LegalTexts(Normalize(pp)) /\ Len(e.lg) = Cardinality(ToSet(e.lg)), "C17",
+                                             "imported position does not have the legal moves of the described position",
+                                             [fen |-> Str(e.fen), missing |-> LegalTexts(Normalize(pp)) \ ToSet(e.lg),
+                                              extra |-> ToSet(e.lg) \ LegalTexts(Normalize(pp))])
+                                      ELSE {})
+                                \cup F("lgpanic" \notin DOMAIN e, "C17", "move generation panicked on an imported well-formed FEN", [fen |-> Str(e.fen)])
                            ELSE {}))
                 /\ pos' = op /\ prev' = e.o
         ELSE /\ Report(F(cls # "MustAccept", "C17", "well-formed FEN of a sane position was refused",
-                         [fen |-> Str(e.fen), err |-> e.err]))
+                         [fen |-> Str(e.fen), err |-> e.err])
+                       \cup F(~("panic" \in DOMAIN e /\ e.panic), "C17", "FEN import panicked",
+                              [fen |-> Str(e.fen), class |-> cls, err |-> e.err]))
              /\ pos' = NoPos /\ prev' = NoObs
   /\ stk' = << >> /\ recs' = << >> /\ l' = l + 1
 
@@ -157,8 +168,12 @@ Query ==
                             [got |-> v.fl, want |-> FenLine(pos)])
                      \cup F(v.rows = DiagramRows(pos.board) /\ v.files = FileLabels, "C20", "diagram disagrees with the game",
                             [got |-> v.rows, want |-> DiagramRows(pos.board)])
-                     \cup F(Len(v.rec) = Len(recs) /\ \A i \in 1..Len(recs) : v.rec[i] \in recs[i], "C20",
-                            "move record does not show what was played", [got |-> v.rec, want |-> recs])
+                     \cup (LET n == IF Len(v.rec) < Len(recs) THEN Len(v.rec) ELSE Len(recs)
+                               bad == { i \in 1..n : v.rec[i] \notin recs[i] }
+                           IN F(Len(v.rec) = Len(recs) /\ bad = {}, "C20", "move record does not show what was played",
+                                IF bad = {} THEN [shown |-> Len(v.rec), played |-> Len(recs)]
+                                ELSE LET i == CHOOSE i \in bad : \A j \in bad : i <= j
+                                     IN [index |-> i, got |-> v.rec[i], want |-> recs[i]]))
                 [] e.what = "rt" ->
                      F(\A i \in 1..Len(v) : v[i][2], "C12", "move text does not read back as the same move",
                        [fen |-> FenLine(pos), bad |-> { v[i][1] : i \in { j \in 1..Len(v) : ~v[j][2] } }])
@@ -189,12 +204,28 @@ Mir ==
                    [fen |-> FenLine(pos), sc |-> prev.sc, mirror |-> e.o.sc]))
   /\ UNCHANGED <<pos, prev, stk, recs>> /\ l' = l + 1
 
+\* C05 (c): a single-feature variation of a position, imported by the real engine, hashes differently
+Var ==
+  /\ IsEvent("var")
+  /\ LET e == Rec[l]
+         okb == SyntaxClass(e.base) = "A" /\ e.b.ok
+         okv == SyntaxClass(e.var) = "A" /\ e.v.ok
+     IN Report(IF okb /\ okv
+               THEN LET pb == Parse(e.base)
+                        pv == Parse(e.var)
+                    IN F(e.b.h = Hash(pb) /\ e.v.h = Hash(pv), "C04", "imported position's hash is not the key-file combination",
+                         [base |-> Str(e.base), var |-> Str(e.var)])
+                       \cup F(pb # pv => e.b.h # e.v.h, "C05", "two different positions share a hash",
+                              [base |-> Str(e.base), var |-> Str(e.var), hash |-> e.b.h])
+               ELSE {})
+  /\ UNCHANGED <<pos, prev, stk, recs>> /\ l' = l + 1
+
 Panic ==
   /\ IsEvent("panic")
   /\ Report(F(FALSE, "PANIC", "the engine panicked", [msg |-> Rec[l].msg, root |-> Rec[l].root]))
   /\ pos' = NoPos /\ prev' = NoObs /\ stk' = << >> /\ recs' = << >> /\ l' = l + 1
 
-Next == New \/ Push \/ Pop \/ Query \/ Reimp \/ Mir \/ Panic
+Next == New \/ Push \/ Pop \/ Query \/ Reimp \/ Mir \/ Var \/ Panic
 Spec == Init /\ [][Next]_vars
 
 \* every event consumed = one state per event plus the initial state
